@@ -32,17 +32,24 @@ SETTINGS = {"settings": {"performance_progress_list_var_name": sut.PPL,
 class FakeStream(io.TextIOBase):
     """stdout / stderr of the simulated process. `fail_after` bytes, the next write raises OSError(errno)."""
 
-    def __init__(self, fail_after: int | None = None, err: int = errno.EPIPE):
+    def __init__(self, fail_after: int | None = None, err: int = errno.EPIPE, encoding: str = "utf-8"):
         self.buf = []
         self.n = 0
         self.fail_after = fail_after
         self.err = err
         self.failed = False
+        self._enc = encoding  # what the terminal / pipe of this process is opened with (locale, PYTHONIOENCODING)
+
+    @property
+    def encoding(self):
+        return self._enc
 
     def writable(self):
         return True
 
     def write(self, s):
+        if self._enc != "utf-8":
+            s.encode(self._enc)  # strict, as io.TextIOWrapper: UnicodeEncodeError for what the stream cannot carry
         b = len(s.encode("utf-8"))
         if self.fail_after is not None and self.n + b > self.fail_after:
             self.failed = True
@@ -61,7 +68,7 @@ class FakeStream(io.TextIOBase):
         return "".join(self.buf)
 
 
-def _run_cli(module: str, argv: list[str], vfs_dump: dict, faults: list | None = None, stdout_fail_after=None) -> dict:
+def _run_cli(module: str, argv: list[str], vfs_dump: dict, faults: list | None = None, stdout_fail_after=None, stdout_encoding="utf-8") -> dict:
     """One simulated CLI process: returns exit status, stdout, stderr, the file system afterwards."""
     sut.quiet_logging()
     import warnings
@@ -70,7 +77,7 @@ def _run_cli(module: str, argv: list[str], vfs_dump: dict, faults: list | None =
     vfs = Vfs.load(vfs_dump)
     vfs.faults = [dict(f) for f in (faults or [])]
     vfs.install()
-    out, err = FakeStream(stdout_fail_after), FakeStream()
+    out, err = FakeStream(stdout_fail_after, encoding=stdout_encoding), FakeStream()
     old = (sys.argv, sys.stdout, sys.stderr)
     sys.argv = [module] + list(argv)
     sys.stdout, sys.stderr = out, err
@@ -103,8 +110,8 @@ def _run_cli(module: str, argv: list[str], vfs_dump: dict, faults: list | None =
     return res
 
 
-def run_cli(module, argv, vfs_dump, faults=None, stdout_fail_after=None, timeout=120):
-    return forkrun(_run_cli, module, argv, vfs_dump, faults, stdout_fail_after, timeout=timeout)
+def run_cli(module, argv, vfs_dump, faults=None, stdout_fail_after=None, timeout=120, stdout_encoding="utf-8"):
+    return forkrun(_run_cli, module, argv, vfs_dump, faults, stdout_fail_after, stdout_encoding, timeout=timeout)
 
 
 def _lib_compile(vfs_dump: dict, main_abs: str, lookup_abs: list[str]) -> dict:
@@ -411,6 +418,17 @@ def handbuilt_documents() -> list[tuple[str, dict]]:
         {"type": "COROUTINE", "name": "CORO_X", "ops": [{"opcode": "x", "params": []}, {"opcode": "Return", "params": []}]},
         {"type": "ACTOR", "target_id": 0, "ops": [{"opcode": "b", "params": []}, {"opcode": "End", "params": []}]},
         {"type": "COROUTINE", "name": "CORO_Y", "ops": [{"opcode": "y", "params": []}, {"opcode": "End", "params": []}]}])))
+    # the two settings of the document decide how some ops are printed: dungeon modes given as numbers, and the
+    # variable named as performance progress list
+    out.append(("dungeon_modes_as_numbers", doc([{"type": "GENERIC", "ops": [
+        {"opcode": "flag_SetDungeonMode", "params": [3, 1]}, {"opcode": "flag_SetDungeonMode", "params": [4, 0]},
+        {"opcode": "flag_SetDungeonMode", "params": [5, 2]}, {"opcode": "flag_SetDungeonMode", "params": [6, 3]},
+        {"opcode": "SwitchDungeonMode", "params": [3]}, {"opcode": "Case", "params": [0, 9]}, {"opcode": "Case", "params": [1, 11]},
+        {"opcode": "Jump", "params": [12]}, {"opcode": "a", "params": []}, {"opcode": "Jump", "params": [12]}, {"opcode": "b", "params": []},
+        {"opcode": "End", "params": []}]}])))
+    out.append(("performance_progress_list", doc([{"type": "GENERIC", "ops": [
+        {"opcode": "flag_SetPerformance", "params": [5, 1]},
+        {"opcode": "BranchPerformance", "params": [5, 1, 4]}, {"opcode": "End", "params": []}, {"opcode": "a", "params": []}, {"opcode": "End", "params": []}]}])))
     # jump parameters are 1-based positions counted across all routines (the example of the docs)
     out.append(("jumps_are_1_based_positions", doc([
         {"type": "GENERIC", "ops": [{"opcode": "a", "params": []}, {"opcode": "End", "params": []}]},
@@ -496,16 +514,35 @@ def run_world(item: dict) -> dict:
                 viol("decompile-decodes-the-document", "routine-set-differs", base)
             if "/proj/d.sm" not in r["files"]:
                 viol("exit-0-exactly-on-success", "decompile-exit-0-without-source-map", base)
+            # the text printed is what the library gives for the decoded routine set under the document's settings
+            if "decoded" in r:
+                dec = copy.deepcopy(r["decoded"])
+                for i, rr in enumerate(dec["routines"]):
+                    if rr["type"] == "COROUTINE":
+                        rr["coro"] = r.get("decoded_coro_by_index", {}).get(str(i))
+                if all(rr["type"] != "COROUTINE" or rr["coro"] for rr in dec["routines"]):
+                    libdec = forkrun(_lib_decompile, dec, timeout=120)
+                    res["processes"] += 1
+                    if "ok" in libdec and r["stdout"] != libdec["ok"]["text"] + "\n":
+                        viol("decompile-decodes-the-document", "text-differs-from-the-library's-under-the-document's-settings",
+                             {**base, "printed": r["stdout"][:600], "library": libdec["ok"]["text"][:600]})
         _decompile_faults(res, v.dump(), "in.json", d, frng, viol, count_exit)
         return res
     w = gen_world(run_seed)
     res["kind"] = w["kind"]
     lib = forkrun(_lib_compile, w["vfs"], w["main_abs"], w["lookup_abs"], timeout=120)
     res["processes"] += 1
-    r = run_cli("explorerscript.cli.compile", w["argv"], w["vfs"])
+    # the stream the compile command prints to is opened by its environment: mostly UTF-8, sometimes a legacy code page
+    enc = seeds.stream(run_seed, "stdout-encoding").choice(["utf-8"] * 7 + ["ascii", "latin-1", "cp1252"])
+    r = run_cli("explorerscript.cli.compile", w["argv"], w["vfs"], stdout_encoding=enc)
     res["processes"] += 1
     res["pipelines"] += 1
+    res["stdout_encodings"] = {enc: 1}
     count_exit("compile", r["exit"])
+    if enc != "utf-8" and r["exit"] != 0 and "UnicodeEncodeError" in r["stderr"]:
+        # the environment could not carry the output: a delivery fault, not a wrong status (and nothing to hand on)
+        res["undeliverable_on_legacy_stdout"] = 1
+        return res
     base = {"world": {k: w[k] for k in ("vfs", "argv", "kind")}, "exit": r["exit"], "stderr": r["stderr"][-600:]}
     sm_path = None if not w["sm"] else (w["sm"] if w["sm"].startswith("/") else "/proj/" + w["sm"])
     if "raised" in lib:
@@ -537,13 +574,14 @@ def run_world(item: dict) -> dict:
         return res
     res["processes"] += 1
     v2 = Vfs.load(w["vfs"])
+    wire = r["stdout"] if enc == "utf-8" else r["stdout"].encode(enc)
     if frng.random() < 0.25:
         # the hand-off through a pipe (`decompile <(compile ...)`, /dev/stdin): a path that exists and can be read but is
         # not a regular file
-        v2.mkfifo("/proj/out.json", r["stdout"])
+        v2.mkfifo("/proj/out.json", wire)
         res["handoff_through_pipe"] = 1
     else:
-        v2.write("/proj/out.json", r["stdout"])
+        v2.write("/proj/out.json", wire)
     r2 = run_cli("explorerscript.cli.decompile", ["out.json"] + (["--source-map", "dec.sm"] if frng.random() < 0.5 else []), v2.dump())
     res["processes"] += 1
     count_exit("decompile", r2["exit"])
@@ -650,7 +688,7 @@ def _decompile_faults(res, vfs_dump, json_arg, printed, frng, viol, count_exit):
         faults = []
         fail_after = None
         path = "/proj/" + json_arg
-        raw = v.nodes[path][1].decode()
+        raw = v.nodes[path][1].decode("utf-8", "replace")
         if f == "json_missing":
             v.remove(path)
         elif f == "json_invalid":
@@ -844,7 +882,7 @@ def check(rep, tier: str, master: int, only_idx=None) -> None:
             agg["skipped_wall_cap"] += 1
             continue
         if st != "ok":
-            rep.harness_error(f"item {it['idx']}: {r}")
+            rep.harness_error(f"item {it['idx']}: {str(r)[:3000]}".replace("\n", " | "))
             continue
         if it.get("real"):
             agg["real_validated"] += r["validated"]
@@ -857,6 +895,10 @@ def check(rep, tier: str, master: int, only_idx=None) -> None:
         kinds[r["kind"].split(":")[0]] = kinds.get(r["kind"].split(":")[0], 0) + 1
         agg["slow_decompile_skipped"] = agg.get("slow_decompile_skipped", 0) + r.get("slow_decompile_skipped", 0)
         agg["handoff_through_pipe"] = agg.get("handoff_through_pipe", 0) + r.get("handoff_through_pipe", 0)
+        agg["undeliverable_on_legacy_stdout"] = agg.get("undeliverable_on_legacy_stdout", 0) + r.get("undeliverable_on_legacy_stdout", 0)
+        for k_, v_ in (r.get("stdout_encodings") or {}).items():
+            agg.setdefault("stdout_encodings", {})
+            agg["stdout_encodings"][k_] = agg["stdout_encodings"].get(k_, 0) + v_
         for k, v in r["exits"].items():
             exits[k] = exits.get(k, 0) + v
         for k, v in r["faults"].items():
